@@ -95,15 +95,29 @@ struct Checker
 				if(!(std::fabs(d1 - r1) <= tdd)) fail(x, y, "d1_vs_reference", pts[k], "D1=" + mc::dec(d1) + " reference " + mc::dec(r1) + " tol " + mc::dec(tdd));
 				double hs = (double)R.h[seg];
 				double r2 = (double)R.d2(seg, pts[k]), r3 = (double)R.d3(seg);
-				if(!(std::fabs(d2 - r2) <= 4 * tdd / hs)) fail(x, y, "d2_vs_reference", pts[k], "D2=" + mc::dec(d2) + " reference " + mc::dec(r2));
-				if(!(std::fabs(d3 - r3) <= 8 * tdd / hs / hs)) fail(x, y, "d3_vs_reference", pts[k], "D3=" + mc::dec(d3) + " reference " + mc::dec(r3));
+				// the curve is only C1: at an interior knot the second and third derivative have two one-sided values, and either is
+				// "the derivative of the returned curve" there
+				int other = -1;
+				if(k == 0 && j > 0) other = j - 1;
+				if(k == np - 1 && j < N - 2) other = j;	  // (seg is j+1 here)
+				bool d2ok = std::fabs(d2 - r2) <= 4 * tdd / hs, d3ok = std::fabs(d3 - r3) <= 8 * tdd / hs / hs;
+				bool right_sided = true;
+				if(other >= 0)
+				{
+					double ho = (double)R.h[other], to = std::max(told1(other), tdd);
+					bool d2o = std::fabs(d2 - (double)R.d2(other, pts[k])) <= 4 * to / ho, d3o = std::fabs(d3 - (double)R.d3(other)) <= 8 * to / ho / ho;
+					if(!(d2ok && d3ok) && d2o && d3o) { d2ok = d3ok = true; right_sided = (other == j); }
+				}
+				if(!d2ok) fail(x, y, "d2_vs_reference", pts[k], "D2=" + mc::dec(d2) + " reference " + mc::dec(r2));
+				if(!d3ok) fail(x, y, "d3_vs_reference", pts[k], "D3=" + mc::dec(d3) + " reference " + mc::dec(r3));
 				if(!light)
 				{
 					double d0 = der(pts[k], 0);
 					if(!mc::same_bits(d0, v)) fail(x, y, "d0_not_value", pts[k], "Derivative(x,0) differs from Interpolate(x)");
 					if(der(pts[k], 4) != 0.0 || der(pts[k], 7) != 0.0) fail(x, y, "d4_nonzero", pts[k], "Derivative of order >=4 is not 0");
 					// O5: Taylor identity to the next sample point of the same segment (exact for a cubic)
-					if(k + 1 < np - 1 || (k + 1 == np - 1 && j == N - 2))
+					// (from a knot only if the reported higher derivatives are those of this segment)
+					if((k + 1 < np - 1 || (k + 1 == np - 1 && j == N - 2)) && (k > 0 || j == 0 || right_sided))
 					{
 						double dl = pts[k + 1] - pts[k];
 						double tay = v + d1 * dl + d2 * dl * dl / 2 + d3 * dl * dl * dl / 6;
